@@ -194,7 +194,7 @@ def ref_feed(samples):
     if idx and idx[-1] != n - 1 and idx[-1] != 0:
         s = s[:idx[-1] + 1]
     x1 = [0] + s
-    flush1 = (len(x1) - 1) in [i for i, _v in _interior_reversals(x1 + s)]
+    flush1 = (len(x1) - 1) in [i for i, _v in _interior_reversals(x1 + x1)]
     t1, tail = _ref_new_turns([], x1, flush1)
     t2, _ = _ref_new_turns(tail, s, True)
     return t1, t2
@@ -277,3 +277,14 @@ def ref_guideline(law, turns1, turns2):
 
 
 PREV_LOAD_RESETS = False
+
+
+def first_run_flushes(samples):
+    """Does the first HCM run flush its last sample?  (zero-prefixed trimmed sequence, doubled WITH the zero)"""
+    s = list(samples)
+    n = len(s)
+    idx = [i for i, _v in _interior_reversals(s + s) if i < n]
+    if idx and idx[-1] != n - 1 and idx[-1] != 0:
+        s = s[:idx[-1] + 1]
+    x1 = [0] + s
+    return (len(x1) - 1) in [i for i, _v in _interior_reversals(x1 + x1)]
